@@ -27,4 +27,5 @@ def main():
     rep.add_traces(traces, vs_, gen, dist, nontrivial_key=lambda c: c["objs"][0]["text"] + str(c["events"][1]["w"]))
     return rep.finish("random formulas depth<=4 x random traces")
 
-core.main(main)
+if __name__ == "__main__":
+    core.main(main)
